@@ -512,8 +512,14 @@ func runC05(cfg *vh.Config) error {
 	var fileCases []fileCaseRec
 	fileSeen := vh.Distinct{}
 	fileToks := map[string]int{}
-	maxFileToks := map[string]int{"repo-proto": cfg.Scale(16000, 400000), "compiled": cfg.Scale(18000, 600000)}
-	addFile := func(stream string, fd protoreflect.FileDescriptor, out rtOut, where string, input any) {
+	maxFileToks := map[string]int{"repo-proto": cfg.Scale(16000, 400000), "compiled": cfg.Scale(18000, 600000), "hand-built": 100000}
+	addFile := func(stream string, fd protoreflect.FileDescriptor, out rtOut, fails []rtFailure, where string, input any) {
+		lost := false
+		for _, f := range fails {
+			if strings.HasPrefix(f.Sig, "options on the value field of a map entry are not printed") {
+				lost = true
+			}
+		}
 		if out.Fd2 == nil || out.Txt1 == "" {
 			return
 		}
@@ -525,7 +531,7 @@ func runC05(cfg *vh.Config) error {
 			res.Count("file-layer:over the token budget of this tier")
 			return
 		}
-		term, n, skip, err := fileCase(fd, out.Txt1, out.Fd2, out.Txt2)
+		term, n, skip, err := fileCase(fd, out.Txt1, out.Fd2, out.Txt2, lost)
 		switch {
 		case err != nil:
 			res.Count("file-layer:lexer error")
@@ -583,7 +589,7 @@ func runC05(cfg *vh.Config) error {
 			}
 			addOpts(fd, "repo-proto", input)
 			rt, fails := roundTripOut(ctx, fd, root.Files)
-			addFile("repo-proto", fd, rt, root.Dir+"/"+name, input)
+			addFile("repo-proto", fd, rt, fails, root.Dir+"/"+name, input)
 			if len(fails) == 0 {
 				res.Count("repo-proto:round trip ok")
 			} else {
@@ -592,6 +598,49 @@ func runC05(cfg *vh.Config) error {
 			report("repo-proto", "C05 repository proto file", input, fails)
 			res.Sample(map[string]any{"stream": "repo-proto", "file": root.Dir + "/" + name, "failures": len(fails)}, 4)
 		}
+	}
+
+	// ------------------------------------------------------------ stream 1b: hand-built descriptors (pinned classes)
+	// file-level string options whose value needs escaping (printFile wrote them raw before /repo b69d449)
+	for i, val := range []string{"plain/pkg;name", "a\"b", "back\\slash", "line\nbreak\ttab", "quote'single", "caf\u00e9 \U0001F600", "\"\\\n\r\x01\x7f"} {
+		caseNo++
+		res.Count("hand-built")
+		distinct.Add("hand:" + val)
+		name := fmt.Sprintf("hand/v1/opt%d.proto", i)
+		fdp := &descriptorpb.FileDescriptorProto{
+			Name:    proto.String(name),
+			Syntax:  proto.String("proto3"),
+			Package: proto.String("hand.v1"),
+			Options: &descriptorpb.FileOptions{
+				GoPackage:          proto.String(val),
+				JavaPackage:        proto.String("x" + val),
+				JavaMultipleFiles:  proto.Bool(i%2 == 0),
+				ObjcClassPrefix:    proto.String(val + "y"),
+				CcEnableArenas:     proto.Bool(i%2 == 1),
+				JavaOuterClassname: proto.String("Outer"),
+			},
+			MessageType: []*descriptorpb.DescriptorProto{{
+				Name: proto.String("Hand"),
+				Field: []*descriptorpb.FieldDescriptorProto{{
+					Name: proto.String("f1"), Number: proto.Int32(1), Type: descriptorpb.FieldDescriptorProto_TYPE_STRING.Enum(), JsonName: proto.String("f1"),
+				}},
+			}},
+		}
+		input := map[string]any{"file": name, "file option value": fmt.Sprintf("%q", val)}
+		fd, err := protodesc.NewFile(fdp, protoregistry.GlobalFiles)
+		if err != nil {
+			res.Notes = append(res.Notes, "hand-built descriptor rejected by protodesc: "+trim(err.Error(), 120))
+			continue
+		}
+		rt, fails := roundTripOut(ctx, fd, map[string]string{})
+		addFile("hand-built", fd, rt, fails, name, input)
+		if len(fails) == 0 {
+			res.Count("hand-built:round trip ok")
+		} else {
+			res.Count("hand-built:round trip fails")
+		}
+		report("hand-built", "C05 hand-built descriptor with file string options", input, fails)
+		res.Sample(map[string]any{"stream": "hand-built", "file": name, "value": fmt.Sprintf("%q", val), "failures": len(fails)}, 3)
 	}
 
 	// ------------------------------------------------------------ stream 2: compiled j5s packages
@@ -633,7 +682,7 @@ func runC05(cfg *vh.Config) error {
 			res.Count("compiled-file")
 			addOpts(f, "compiled", map[string]any{"package": p.Pkg, "file": f.Path(), "j5s": src})
 			rt, fails := roundTripOut(ctx, f, siblings)
-			addFile("compiled", f, rt, p.Pkg+" "+f.Path(), map[string]any{"package": p.Pkg, "file": f.Path(), "j5s": src})
+			addFile("compiled", f, rt, fails, p.Pkg+" "+f.Path(), map[string]any{"package": p.Pkg, "file": f.Path(), "j5s": src})
 			if len(fails) > 0 {
 				ok = false
 				in2 := map[string]any{"package": p.Pkg, "file": f.Path(), "j5s": src}
@@ -774,7 +823,7 @@ func runC05(cfg *vh.Config) error {
 	}
 	// file layer: a third family of shards (few, large cases)
 	ff := &vh.CasesFile{
-		Header: "From Coq Require Import String List NArith ZArith.\nFrom J5V.model Require Import ProtoPrintLit ProtoPrint ProtoLex ProtoPrintCorr ProtoPrintFile ProtoParseFile ProtoPrintFileCorr.",
+		Header: "From Coq Require Import String List NArith ZArith.\nFrom J5V.model Require Import ProtoPrintLit ProtoPrint ProtoLex ProtoPrintCorr ProtoPrintFile ProtoParseFile ProtoPrintFileX ProtoPrintFileCorr.",
 		Type:   "c05file",
 		Check:  "c05_file_check",
 	}
